@@ -41,14 +41,14 @@ example (sl : Slab) (h : t8.1.toCodec R = some sl) :
 
 theorem histB8 : ∃ s, HistB D t8.1 t8.2 s := by
   have h0 : HistB D w0 cx0 St.init := .new 256 1 (by decide)
-  have h1 := HistB.req h0 (Req.newArr (D := D) (w := w0) (cx := cx0) 7) (by decide)
-  have h2 := HistB.req h1 (Req.newMap (D := D) 8 5) (by decide)
-  have h3 := HistB.req h2 (Req.newArr (D := D) 9) (by decide)
-  have h4 := HistB.req h3 (Req.newArr (D := D) 10) (by decide)
-  have h5 := HistB.req h4 (Req.arrInsert (D := D) handles4.1 hv5 run5) (by decide)
-  have h6 := HistB.req h5 (Req.mapSet (D := D) ok5.2.2 keyOk_K1 hv6 run6) (by decide)
-  have h7 := HistB.req h6 (Req.arrInsert (D := D) ok6.2.2 hv7 run7) (by decide)
-  have h8 := HistB.req h7 (Req.arrInsert (D := D) handleR7 hv8 run8) (by decide)
+  have h1 := HistB.req h0 (Req.newArr (D := D) (w := w0) (cx := cx0) 7)
+  have h2 := HistB.req h1 (Req.newMap (D := D) 8 5)
+  have h3 := HistB.req h2 (Req.newArr (D := D) 9)
+  have h4 := HistB.req h3 (Req.newArr (D := D) 10)
+  have h5 := HistB.req h4 (Req.arrInsert (D := D) handles4.1 hv5 run5)
+  have h6 := HistB.req h5 (Req.mapSet (D := D) ok5.2.2 keyOk_K1 hv6 run6)
+  have h7 := HistB.req h6 (Req.arrInsert (D := D) ok6.2.2 hv7 run7)
+  have h8 := HistB.req h7 (Req.arrInsert (D := D) handleR7 hv8 run8)
   exact ⟨_, h8⟩
 
 /-- the byte-level commit / reopen theorem applies to the depth-3 world `t8` -/
